@@ -254,9 +254,14 @@ Fixpoint denote (p : pt) (rho : env) {struct p} : option pulse :=
          | q :: r => match denote q rho, go r with Some a, Some b => Some (a ++ b) | _, _ => None end
          end) ps
   | Rep n b =>
-      match as_int (eval rho n), denote b rho with
-      | Some k, Some pcs => if (k <? 0)%Z || (RANGE_LIMIT <? k)%Z then None else Some (repeat_pulse (Z.to_nat k) pcs)
-      | _, _ => None
+      match as_int (eval rho n) with
+      | Some k =>
+          if (k =? 0)%Z then Some []        (* the body of a zero-fold repetition is never instantiated *)
+          else match denote b rho with
+               | Some pcs => if (k <? 0)%Z || (RANGE_LIMIT <? k)%Z then None else Some (repeat_pulse (Z.to_nat k) pcs)
+               | None => None
+               end
+      | None => None
       end
   | For i start stop step b =>
       match as_int (eval rho start), as_int (eval rho stop), as_int (eval rho step) with
